@@ -348,6 +348,29 @@ func init() {
 				judge(c, &c07Input{Unlock: u, Lock: l, Flags: fl, Mode: "tx", Dbg: dbgOf(r, 10), Ctx: randCtx(r), Src: "sigop-combos"})
 			}
 		}
+		c.Phase("extreme-length-claims") // push headers whose claim sits on the edge of the integer types, in either script, executed or skipped
+		n = 0
+		for _, h := range [][]byte{{0x4c, 0xff}, {0x4d, 0xff, 0xff}, {0x4e, 0xff, 0xff, 0xff, 0xff}, {0x4e, 0xfe, 0xff, 0xff, 0xff}, {0x4e, 0xfd, 0xff, 0xff, 0xff}, {0x4e, 0xfc, 0xff, 0xff, 0xff},
+			{0x4e, 0xfb, 0xff, 0xff, 0xff}, {0x4e, 0xfa, 0xff, 0xff, 0xff}, {0x4e, 0xff, 0xff, 0xff, 0x7f}, {0x4e, 0x00, 0x00, 0x00, 0x80}, {0x4e, 0xfb, 0xff, 0xff, 0x7f}} {
+			for _, pre := range [][]byte{{}, {0x51}, {0x00, 0x63}, {0x51, 0x6a}} {
+				for tail := 0; tail <= 6; tail += 3 {
+					for _, fl := range []uint32{0, uint32(scriptflag.UTXOAfterGenesis), uint32(scriptflag.VerifyMinimalData | scriptflag.VerifySigPushOnly)} {
+						for pos := 0; pos < 2; pos++ {
+							n++
+							if !c.Case(n) {
+								continue
+							}
+							s := append(append(append([]byte{}, pre...), h...), bytesOf(0x51, tail)...)
+							in := &c07Input{Unlock: []byte{0x51}, Lock: s, Flags: fl, Mode: []string{"tx", "scripts-only"}[int(n)%2], Dbg: []string{"none", "recording"}[int(n/2)%2], Ctx: defaultCtx(), Src: "extreme-length-claim"}
+							if pos == 1 {
+								in.Unlock, in.Lock = s, []byte{0x51}
+							}
+							judge(c, in)
+						}
+					}
+				}
+			}
+		}
 		c.Phase("hash-type-sweep") // all 256 hash type bytes on a well-formed signature x every (inputs, outputs, checked index) shape x flag sets x CHECKSIG / 1-of-1 CHECKMULTISIG
 		{
 			pk := append([]byte{0x02}, bytesOf(0x11, 32)...)
